@@ -103,7 +103,9 @@ struct Sim : ClientObserver {
     void log_tcp_connect(error_code ec, const std::string& ip, uint16_t port) override;
     void log_connack(uint8_t rc, bool session_present, const mq::Props& props) override;
     void log_disconnect(uint8_t rc, const mq::Props& props) override;
-    std::pair<bool, std::string> auth_step(int step, const std::string& data) override;
+    std::pair<bool, std::string> auth_step(int step, const std::string& data, bool* posted) override;
+    bool in_reauth_call = false;                 // inside client->re_authenticate(): the authenticator's client_initial belongs to the re-authentication
+    uint64_t connack_log_step = 0;               // world step in which the client last logged a CONNACK
     int auth_fail_step = -1;                     // authenticator fails on this step (-1 never)
 
     int host_of(const std::string& name) const;
